@@ -22,7 +22,8 @@ func init() {
 		Explanation: "Decided (necessary conditions, for every byte string): (R03.1) every opcode the validator accepts (finite-domain evaluation of its dispatch over all 256 byte values and all named second-byte opcodes of the 0xFC/0xFD/0xFE prefixes) has an arm in the interpreter's and in the compiler's lowering dispatcher, so no accepted module reaches an 'unsupported' default; " +
 			"(R03.2) every acceptance of global.get inside a constant expression consults the referenced global's mutability, value type and import range; (R03.3) every allocation of the binary decoder whose size comes from the input is capped by the bytes left to read (boundedSize) or is a constant; " +
 			"(R03.5) both lowering passes advance the program counter only by constants and by sizes returned by the LEB128/immediate decoders (never by decoded values); (R03.6) every function body is validated (no path through the validation loop skips the validator); " +
-			"(R03.7) the end-of-if-without-else check compares the block's parameter and result types, not only their count. NOT decided: termination bounds of the decoder for all inputs, full type soundness of the validator.",
+			"(R03.7) the end-of-if-without-else check compares the block's parameter and result types, not only their count; (R03.8) decoder reads cannot be empty reads at the end of the input (bytes.Reader.Read returns EOF even for an empty buffer: a genuine defect – a trailing custom section with an empty payload was rejected – was found and fixed); (R03.9) the type indexes of all functions are range-checked before the first body is validated (genuine defect found and fixed: `call N` to a function with an out-of-range type index panicked); " +
+			"(R03.10) every arm of the compiler frontend consumes its immediates before the `unreachable` early exit, so dead code is skipped byte-exactly; (R03.11) the interpreter's branch drop ranges are computed in 64-bit slot units, never in value counts (they differ for v128). NOT decided: termination bounds of the decoder for all inputs, full type soundness of the validator.",
 		Rules: []core.Rule{
 			{ID: "R03.1", Template: "T-EXHAUST", Text: "validator-accepted opcodes ⊆ interpreter lowering arms and ⊆ compiler lowering arms, per opcode class", Min: 8},
 			{ID: "R03.2", Template: "T-CONSULT", Text: "constant-expression global.get acceptance consults Mutable, ValType and the imported range", Min: 3},
